@@ -92,6 +92,8 @@ def regenerate():
     notes["schema"] = translate_src.generate_schema(REPO, os.path.join(COQ, "Gen", "SrcSchema.v"))
     notes["fields"] = translate_src.generate_fields(REPO, os.path.join(COQ, "Gen", "SrcFields.v"))
     notes["fresh"] = translate_src.generate_fresh(REPO, os.path.join(COQ, "Gen", "SrcFresh.v"))
+    import translate_lines
+    notes["lines"] = translate_lines.generate(REPO, os.path.join(COQ, "Gen", "SrcLines.v"), os.path.join(HARNESS, "fallback"))
     return notes
 
 
